@@ -2336,6 +2336,8 @@ class PitHist(Output):
             edges = np.linspace(0, 1, self._num_bins + 1)
         else:
             edges = self.thresholds
+        if len(edges) < 2:
+            verif.util.error("PitHist needs at least two bin edges (use -r)")
         num_bins = len(edges)-1
         labels = data.get_legend()
         for f in range(F):
